@@ -380,8 +380,12 @@ class QvmCode(BaseCode):
 
                 continue
 
-            # Fold push/unary-op
-            if (prev1.op == Op.PUSH and cur.op in [Op.NOT, Op.NEG]):
+            # Fold push/unary-op (the not instruction only accepts
+            # integral operands, so a float push is left alone)
+            if (prev1.op == Op.PUSH and cur.op in [Op.NOT, Op.NEG] and
+                prev1.type_char in '%&!#' and
+                not (cur.op == Op.NOT and prev1.type_char in '!#')
+            ):
                 value = prev1.args[0]
                 op = {
                     Op.NOT: expr.Operator.NOT,
@@ -390,7 +394,12 @@ class QvmCode(BaseCode):
                 prev1_type = expr.Type.from_type_char(prev1.type_char)
                 value = expr.NumericLiteral(value, prev1_type)
                 unary_expr = expr.UnaryOp(value, op)
-                value = unary_expr.eval()
+                try:
+                    value = unary_expr.eval()
+                except OverflowError:
+                    # leave it to fail at run time
+                    i += 1
+                    continue
 
                 self._instrs[i-1] = QvmInstr(
                     f'push{prev1.type_char}', value)
@@ -401,11 +410,16 @@ class QvmCode(BaseCode):
                 continue
 
             # Fold push/push/binary-op
+            integral_only = [Op.AND, Op.OR, Op.XOR, Op.EQV, Op.IMP,
+                             Op.IDIV, Op.MOD]
             if (prev1.op == prev2.op == Op.PUSH and
                 prev1.type_char == prev2.type_char and
+                prev1.type_char in '%&!#' and
                 cur.op in [Op.ADD, Op.SUB, Op.MUL, Op.DIV, Op.AND,
                            Op.OR, Op.XOR, Op.EQV, Op.IMP, Op.IDIV,
-                           Op.MOD, Op.EXP]
+                           Op.MOD, Op.EXP] and
+                not (cur.op in integral_only and
+                     prev1.type_char in '!#')
             ):
                 left = prev2.args[0]
                 right = prev1.args[0]
@@ -434,8 +448,10 @@ class QvmCode(BaseCode):
                     i += 1
                     continue
 
+                # the type of the result is not always that of the
+                # operands (integer division yields a SINGLE)
                 self._instrs[i-2] = QvmInstr(
-                    f'push{prev1.type_char}', value)
+                    f'push{binary_expr.type.type_char}', value)
 
                 # remove the next two instructions
                 del self._instrs[i]
